@@ -26,6 +26,9 @@ type History struct {
 	Script  []string
 }
 
+// Big returns a SQL expression for a distinct text of about n bytes.
+func (h *History) Big(tag string, n int) string { return h.big(tag, n) }
+
 func (h *History) big(tag string, n int) string {
 	// distinct, poorly compressible-by-dedup text of about n bytes
 	return fmt.Sprintf("CONCAT(REPEAT('%s-%d-', %d), '%d')", tag, h.Rng.Intn(1000000), n/(len(tag)+8)+1, h.Rng.Intn(1000000))
